@@ -79,7 +79,9 @@ def expect_span(text, line):
 def probe_lines(text, extra=()):
     _s, core, _e = split_anchors(text)
     lines = [text, core, "zz " + core + " zz", core + core, "", "unrelated line 123", "a", "ab", core[::-1],
-             core.upper(), "zz " + core.upper()]
+             core.upper(), "zz " + core.upper(),
+             # the text directly next to digits / letters / blanks, and as the last thing on a line after blanks
+             "7" + core + "7", core + "7", "7" + core, "a" + core + "a", core + "_", "  " + core, core + "  ", "x " + core]
     for i in range(len(core)):
         lines.append(core[:i] + core[i + 1:])
         for c in ("x", "5", " ", core[i - 1] if i else "y"):
@@ -409,6 +411,10 @@ def wrapped_fail(lits, pidx, legacy):
                 lines.append(whole[:i] + "a" + whole[i + 2:])
     lines.append(whole[:spans[0][1]])
     lines.append(whole[spans[-1][0]:])
+    if lits[-1]:
+        lines += [whole + "7", whole + "a", "zz " + whole + "7 zz"]
+    if lits[0]:
+        lines += ["7" + whole, "a" + whole, "zz 7" + whole]
     for line in dict.fromkeys(lines):
         if "\n" in line:
             continue
